@@ -27,7 +27,7 @@ BOUNDS = {
 CHUNK = 4
 
 VA = [3.0, -5.0, 7.0, -9.0, 11.0, -13.0]
-VB = [3.0, 10.0, -14.0, -9.0, 22.0, 26.0]   # equal to VA at cells 0 and 3, different elsewhere
+VB = [3.0, 5.0, -14.0, -9.0, 22.0, 13.0]   # equal to VA at cells 0 and 3, exactly cancelling at cells 1 and 5, different elsewhere
 
 
 def _sets(ncells, kmax):
